@@ -11,7 +11,9 @@ PORTS = ["", "", "", ":80", ":443", ":8080", ":0", ":65535"]
 TOK = ["a", "Z", "1", "é", " ", "%41", "%c3%a9", "%C3%A9", "%20", "%2F", "%3F", "%23", "%26", "%3D", "%40", "%3A", "%25", "%2B", "%2541", "%E9",
        "%00", "%0A", "%7F", "%C2%80", "%", "%4", "%zz", "+", "~", ".", "%2E", "%2e%2E", "-", "_",
        # invisible / format characters, raw and escaped; escaped whitespace that is not the ASCII space
-       "\u200c", "\u200b", "\ufeff", "\xad", "%E2%80%8C", "%C2%A0", "%E2%80%83"]
+       "\u200c", "\u200b", "\ufeff", "\xad", "%E2%80%8C", "%C2%A0", "%E2%80%83",
+       # dangling escapes with a lower- / upper-case hex letter, and escaped hex digits that could complete them
+       "%a", "%F", "%31", "%62", "%a", "%31"]
 
 
 def seg(rng, extra=()):
